@@ -61,6 +61,45 @@ impl<C: tracing::Collect + for<'a> tracing_subscriber::registry::LookupSpan<'a>>
     fn on_close(&self, id: span::Id, _: Context<'_, C>) { fullp(self.0, "close", || id.into_u64().to_string()); RECV.with(|r| r.borrow_mut().push(self.0)); }
 }
 
+/// a per-layer FILTER that logs every callback it receives ("f<n>:<kind>[payload]"); it lets through what is at or below level k
+struct RecFilter(usize, usize);
+type BoxF = Box<dyn tracing_subscriber::subscribe::Filter<tracing_subscriber::Registry> + Send + Sync>;
+impl tracing_subscriber::subscribe::Filter<tracing_subscriber::Registry> for RecFilter {
+    fn enabled(&self, m: &Metadata<'_>, _: &Context<'_, tracing_subscriber::Registry>) -> bool {
+        fullp(1000 + self.0, "f_enabled", || format!("{}@{}", m.name(), m.target()));
+        rank(m.level()) <= self.1
+    }
+    fn callsite_enabled(&self, m: &'static Metadata<'static>) -> Interest {
+        fullp(1000 + self.0, "f_callsite", || format!("{}@{}", m.name(), m.target()));
+        Interest::sometimes()
+    }
+    fn max_level_hint(&self) -> Option<tracing_core::LevelFilter> { None }
+    fn event_enabled(&self, e: &Event<'_>, _: &Context<'_, tracing_subscriber::Registry>) -> bool {
+        fullp(1000 + self.0, "f_event_enabled", || format!("{}@{}", e.metadata().name(), e.metadata().target()));
+        true
+    }
+    fn on_new_span(&self, a: &span::Attributes<'_>, id: &span::Id, _: Context<'_, tracing_subscriber::Registry>) { fullp(1000 + self.0, "f_new_span", || format!("{}={}", id.into_u64(), a.metadata().name())); }
+    fn on_record(&self, id: &span::Id, _: &span::Record<'_>, _: Context<'_, tracing_subscriber::Registry>) { fullp(1000 + self.0, "f_record", || id.into_u64().to_string()); }
+    fn on_enter(&self, id: &span::Id, _: Context<'_, tracing_subscriber::Registry>) { fullp(1000 + self.0, "f_enter", || id.into_u64().to_string()); }
+    fn on_exit(&self, id: &span::Id, _: Context<'_, tracing_subscriber::Registry>) { fullp(1000 + self.0, "f_exit", || id.into_u64().to_string()); }
+    fn on_close(&self, id: span::Id, _: Context<'_, tracing_subscriber::Registry>) { fullp(1000 + self.0, "f_close", || id.into_u64().to_string()); }
+}
+/// pass-through wrappers of a FILTER, named by the letters after `~`: `x` Box<dyn Filter> again, `a` Arc<dyn Filter>, `s` Some(_),
+/// `r` reload::Subscriber used as a filter
+fn wrap_filter(letters: &str, f: BoxF) -> BoxF {
+    let mut f = f;
+    for c in letters.chars().rev() {
+        f = match c {
+            'x' => Box::new(f),
+            'a' => { let a: std::sync::Arc<dyn tracing_subscriber::subscribe::Filter<tracing_subscriber::Registry> + Send + Sync> = std::sync::Arc::new(f); Box::new(a) }
+            's' => Box::new(Some(f)),
+            'r' => { let (s, h) = tracing_subscriber::reload::Subscriber::new(f); std::mem::forget(h); Box::new(s) }
+            _ => panic!("bad filter wrapper {}", c),
+        };
+    }
+    f
+}
+
 fn take_recv() -> String {
     RECV.with(|r| {
         let v: Vec<String> = r.borrow().iter().map(|n| n.to_string()).collect();
@@ -130,6 +169,19 @@ fn parse_layer(toks: &[&str], ip: &mut usize) -> BoxS {
         b'E' => { *ip += 1; let (n, k) = veto(t); wrap(prefixes, Box::new(Rec(n, RecKind::EventVeto(k)))) }
         b'N' => { *ip += 1; let (n, k) = veto(t); wrap(prefixes, Box::new(Rec(n, RecKind::Never(k)))) }
         b'G' => { *ip += 1; wrap(prefixes, build_global(&t[1..])) }
+        b'R' => {
+            // `R<n>l<k>[~<filter wrappers>]`: recording layer n behind the recording filter n (lets through levels <= k)
+            *ip += 1;
+            let (body, letters) = match t.split_once('~') { Some((b, l)) => (b, l), None => (t, "") };
+            let (n, k) = veto(body);
+            if letters.is_empty() {
+                // bare: the concrete filter type, no wrapper of any kind
+                wrap(prefixes, Box::new(rec(n).with_filter(RecFilter(n, k))))
+            } else {
+                let f = wrap_filter(letters, Box::new(RecFilter(n, k)));
+                wrap(prefixes, Box::new(rec(n).with_filter(f)))
+            }
+        }
         b'F' => {
             let n: usize = t[1..].parse().unwrap();
             let end = i + 1 + toks[i + 1..].iter().position(|x| *x == ".").expect("terminator");
